@@ -48,6 +48,11 @@ theorem sort_by_orders (ks : List (Bool × Bool × Cmp.Key)) (ix : Sorter.Ix) :
 -- statement on every run (`Gen.sorterFns`, go/cmd/extract/sortast.go), interpreted, and proved equal to the mirror
 -- `Sorter.sort` for every index and comparison function in `QF.Props.C03SorterGen` (`gen_sorter_canon`,
 -- `gen_sorter_semantics`); a rename raises no alarm, a changed operator, bound or statement does.
-theorem tie : Tie.sameAll ["qframe.Sort"] = true := by decide
+-- `QFrame.Sort` itself is not compared as text any more: it is regenerated statement by statement in `Gen.sortAst` (go/cmd/extract/sortgast.go; the loop over the
+-- orders, the unknown-column return, `s.Comparable(o.Reverse, false, o.NullLast)`, `qf.index.Copy()`, `qfsort.New` — `Gen.sorterNewAst` —, `sorter.Sort()`):
+-- `C03SortGlueGen.gen_sortglue_canon` + `gen_sort_glue_semantics` / `gen_sort_cmps_semantics`, and `C03EndToEnd.gen_sort_end_to_end` goes from these pieces, the
+-- regenerated sorter and the regenerated comparators to the spec's `isSortedResult`. Tie audit (bin/selftest-ties): every behaviour-changing edit of `Sort` and of
+-- `qfsort.New` makes `gen_sortglue_canon` fail, renaming their locals or reformatting them changes nothing.
+theorem tie : Tie.sameAll [] = true := by decide
 
 end QF.Props.C03
